@@ -13,10 +13,13 @@ def oracle(ctx, case, heap, obs, desc):
         if len(e["val"]) > lim["max_str"]:
             ctx.fail("value of length %d exceeds max string length %d" % (len(e["val"]), lim["max_str"]), desc, tag="strlen")
         rec = heap.objs[e["oid"]] if e["oid"] is not None else None
-        if rec is not None and not rec["unprintable"]:
+        if rec is not None and not rec["unprintable"] and rec["text"].startswith(e["val"]):
+            # (a value whose text is not a prefix of the object's text at all is rendered wrongly: that is C02, not the cut)
             if e["trunc"] != (len(rec["text"]) > lim["max_str"]) or e["val"] != rec["text"][:lim["max_str"]]:
                 ctx.fail("value/truncated flag wrong for %s: %r trunc=%s, text has length %d" % (
                     e["ty"], e["val"][:30], e["trunc"], len(rec["text"])), desc, tag="truncflag")
+        if e["trunc"] and len(e["val"]) != lim["max_str"]:
+            ctx.fail("value marked truncated but %d characters long, the limit is %d" % (len(e["val"]), lim["max_str"]), desc, tag="truncflag")
         if (e["ty"] in SEQ_TYPES or (rec is not None and isinstance(rec["obj"], Exception))) and len(e["children"]) > lim["max_coll"]:
             ctx.fail("%s has %d children, max collection size is %d" % (e["ty"], len(e["children"]), lim["max_coll"]), desc, tag="collsize")
     d = e1.depths(obs)
